@@ -291,44 +291,41 @@ fn c12_remote_limit_update_step() {
     core::mem::forget(s);
 }
 
-/// STREAMS_BLOCKED(v) with the DemandConcurrency strategy (qconnection's default).
-/// `bound` = largest v considered. Oracle: no panic, the advertised limit never DEcreases (a limit
-/// once advertised cannot be taken back: RFC 9000 §4.6 "MAX_STREAMS frames that do not increase
-/// the stream limit MUST be ignored" on the peer's side) and never exceeds 2^60.
-fn blocked_demand(assume_sane: bool) {
+/// STREAMS_BLOCKED(v) with the DemandConcurrency strategy (qconnection's default), for EVERY value the
+/// frame parser accepts (v <= 2^60-1 since the fix; on the pinned tree the parser accepted any varint).
+/// Oracle: no panic; the strategy asks for v + 1; the advertised limit becomes min(v + 1, 2^60-1) if that
+/// is LARGER than the current one (exactly one MAX_STREAMS frame with that value), otherwise nothing
+/// changes and nothing is sent — an advertised limit is never taken back and never exceeds 2^60-1.
+/// FORMER DEFECT (fixed in /repo): v = 2^62-1 panicked in `VarInt::from_u64(v + 1).expect(..)` (remote
+/// panic), v + 1 < current limit LOWERED the limit, v >= 2^60 advertised a limit above 2^60.
+/// (That DemandConcurrency grants whatever the peer asks for is a policy of that strategy, not decided here.)
+fn blocked_demand() {
     let (mut s, _cur) = any_state(Box::new(crate::sid::handy::DemandConcurrency));
     let max = s.max;
-    let v: u64 = kani::any();
-    kani::assume(v <= VARINT_MAX);
     let dir = if kani::any() { Dir::Bi } else { Dir::Uni };
     let idx = dir as usize;
     kani::assume(max[idx] <= MAX_STREAMS_LIMIT);
-    if assume_sane {
-        // an honest, un-reordered peer reports exactly the limit in force
-        kani::assume(v == max[idx] && v < MAX_STREAMS_LIMIT);
+    // every value the frame parser accepts (lemma c12_streams_blocked_frame_bound: v <= 2^60-1)
+    let v: u64 = kani::any();
+    kani::assume(v <= MAX_STREAMS_LIMIT);
+    let frame = StreamsBlockedFrame::with(dir, VarInt::from_u64(v).unwrap());
+    s.recv_streams_blocked_frame(frame);
+    let want = if v + 1 > MAX_STREAMS_LIMIT { MAX_STREAMS_LIMIT } else { v + 1 };
+    if want > max[idx] {
+        assert!(s.max[idx] == want && unsafe { MAX_N } == 1);
+        assert!(unsafe { MAX_LAST } == Some(MaxStreamsFrame::with(dir, VarInt::from_u64(want).unwrap())));
+    } else {
+        assert!(s.max[idx] == max[idx] && unsafe { MAX_N } == 0, "a stale STREAMS_BLOCKED changes nothing");
     }
-    s.recv_streams_blocked_frame(StreamsBlockedFrame::with(dir, VarInt::from_u64(v).unwrap()));
-    assert!(s.max[idx] >= max[idx], "an advertised stream limit is never taken back");
-    assert!(s.max[idx] <= MAX_STREAMS_LIMIT + 1, "advertised stream limit stays within 2^60");
-    assert!(s.max[idx] == v + 1 && unsafe { MAX_N } == 1);
-    assert!(unsafe { MAX_LAST } == Some(MaxStreamsFrame::with(dir, VarInt::from_u64(v + 1).unwrap())));
-    kani::cover!(v == 0, "blocked at limit 0");
+    assert!(s.max[1 - idx] == max[1 - idx]);
+    kani::cover!(v == 0 && max[idx] == 0, "blocked at limit 0");
+    kani::cover!(v + 1 < max[idx], "stale frame ignored");
+    kani::cover!(v == MAX_STREAMS_LIMIT, "largest accepted value");
     core::mem::forget(s);
 }
 
 #[kani::proof]
 #[kani::unwind(3)]
 fn c12_remote_blocked_demand() {
-    blocked_demand(true);
-}
-
-/// PENDING (new suspected defect): any STREAMS_BLOCKED value the parser accepts.
-/// (a) v = 2^62-1: `VarInt::from_u64(v + 1).expect(..)` panics (remote-triggered panic);
-/// (b) v + 1 < current limit (stale / duplicated / hostile frame): the limit is LOWERED, so streams
-///     the peer was already allowed to open are later answered with a StreamLimit error;
-/// (c) 2^60 <= v: a limit above 2^60 is advertised (peers must treat that as FRAME_ENCODING_ERROR).
-#[kani::proof]
-#[kani::unwind(3)]
-fn c12_remote_blocked_demand_any_pending() {
-    blocked_demand(false);
+    blocked_demand();
 }
